@@ -145,3 +145,22 @@ contract(f"{Q}.__hash__",
          modifies=["contents(self._REGISTRY._cache.dimensionality)", "contents(self._REGISTRY._cache.root_units)",
                    "contents(self._REGISTRY._cache.conversion_factor)", "allof(UnitsContainer._hash)", "self._dimensionality"],
          props=["C05"])
+
+# ---- equality of two multiplicative quantities: same dimensionality and same physical value
+contract(f"{Q}._is_multiplicative", params={"self": "Ref[PlainQuantity]"}, returns="Bool", pure=True,
+         ensures={"def": "result == q_mult(self)"}, modifies=[], trusted=True,
+         note="dynamic dispatch: True in the plain facet, overridden by the non-multiplicative facet", props=["C05"])
+
+contract(f"{Q}.__eq__",
+         params={"self": "Ref[PlainQuantity]", "other": "Ref[PlainQuantity]"}, returns="Bool",
+         requires={"q": "QWF(self)", "o": "QWF(other)", "distinct": "self != other",
+                   "same_registry": "self._REGISTRY == other._REGISTRY",
+                   "multiplicative": "q_mult(self) and q_mult(other)"},
+         ensures={"equal_iff_same_dimension_and_value": "result == (SameDim(self, other) and Phys(self) == Phys(other))",
+                  "hashes": "HashesKept()"},
+         allow_exc=("UndefinedUnitError", "OffsetUnitCalculusError"),
+         modifies=["self._dimensionality", "other._dimensionality",
+                   "contents(self._REGISTRY._cache.dimensionality)", "contents(self._REGISTRY._cache.root_units)",
+                   "contents(self._REGISTRY._cache.conversion_factor)", "allof(UnitsContainer._hash)"],
+         theories=("lin", "fac", "facdiff"),
+         props=["C05"])
